@@ -177,6 +177,9 @@ func genMassiveScenario(c *Ctx, arm string, nMalformMax int) *massiveScenario {
 		s.doc = joinParts(s.parts)
 	}
 	if arm == "malformed" {
+		if s.manyRoots && c.Chance(1, 2) {
+			nMalformMax = len(s.parts) // more failing blocks than a stage has workers
+		}
 		n := 1 + c.Draw(nMalformMax)
 		for i := 0; i < n; i++ {
 			k, pi := malform(c, s.parts, s.sp.Unit)
